@@ -63,12 +63,12 @@ theorem xar_checkAllAt_ok_imp (C : Crypto) (f : Bytes) (base : Int) : ∀ rs : L
 def xarGatheredRefs (o : Opened) : List Ref := sortRefs ((gather o.toc.files).map XFile.ref)
 
 /-- what a successful `Open` tells about where its table of contents came from -/
-theorem xar_open_ok (C : Crypto) (E : Env) (f : Bytes) (o : Opened) (h : (openPlan E f).run C = .ok o) :
+theorem xar_open_ok (fx : Bool) (C : Crypto) (E : Env) (f : Bytes) (o : Opened) (h : (openPlanG fx E f).run C = .ok o) :
     ∃ hd root n, parseHeader f = .ok (hd, o.hk) ∧ tocRegion f = regionSR f hd.hsize hd.clen ∧
       E.decode (tocRegion f) = some (root, n) ∧ unmarshal E.num root = some o.toc ∧ C.H o.hk (tocRegion f) = o.tocHash := by
   rw [run_ok_iff] at h
   obtain ⟨hc, hf⟩ := h
-  unfold openPlan at hc hf
+  unfold openPlanG at hc hf
   cases hp : parseHeader f with
   | error e => simp [hp, Plan.fail] at hf
   | ok v =>
@@ -89,11 +89,19 @@ theorem xar_open_ok (C : Crypto) (E : Env) (f : Bytes) (o : Opened) (h : (openPl
             · simp only [Except.ok.injEq, Prod.mk.injEq] at hp
               rw [hp.1]
     simp only [hp] at hc hf
+    cases hg1 : (fx && !tocSizesOk hd f.length) with
+    | true => simp [hg1, Plan.fail] at hf
+    | false =>
+    simp only [hg1, Bool.false_eq_true, ↓reduceIte] at hc hf
     cases hz : E.decode (regionSR f hd.hsize hd.clen) with
     | none => simp [hz, Plan.fail] at hf
     | some v =>
       obtain ⟨root, n⟩ := v
       simp only [hz] at hc hf
+      cases hg2 : (fx && decide ((n : Int) > hd.ulen)) with
+      | true => simp [hg2, Plan.fail] at hf
+      | false =>
+      simp only [hg2, Bool.false_eq_true, ↓reduceIte] at hc hf
       cases hu : unmarshal E.num root with
       | none => simp [hu, Plan.fail] at hf
       | some toc =>
@@ -107,10 +115,10 @@ theorem xar_open_ok (C : Crypto) (E : Env) (f : Bytes) (o : Opened) (h : (openPl
           · rename_i stored hr
             simp only [hr] at hc
             simp only [openRest] at hf
-            cases h1 : readSig E f (w64 (hd.hsize + hd.clen)) toc.sig with
+            cases h1 : readSig fx E f (w64 (hd.hsize + hd.clen)) toc.sig with
             | ok sg =>
               simp only [h1, Res.bind] at hf
-              cases h2 : readXSig f (w64 (hd.hsize + hd.clen)) toc.xsig with
+              cases h2 : readXSig fx f (w64 (hd.hsize + hd.clen)) toc.xsig with
               | ok x =>
                 simp only [h2] at hf
                 cases h3 : readTicket f toc.files (w64 (hd.hsize + hd.clen)) with
@@ -170,8 +178,8 @@ theorem xar_tamper_evident (C : Crypto) (E : Env) (hcf : ∀ k a b, C.H k a = C.
   have hreg := hcf _ _ _ hsame
   obtain ⟨o, ho, hko, hm⟩ := xar_checked_streams C E f v h
   obtain ⟨o', ho', hko', hm'⟩ := xar_checked_streams C E f' v' h'
-  obtain ⟨hd, root, n, _, _, hz, hu, _⟩ := xar_open_ok C E f o ho
-  obtain ⟨hd', root', n', _, _, hz', hu', _⟩ := xar_open_ok C E f' o' ho'
+  obtain ⟨hd, root, n, _, _, hz, hu, _⟩ := xar_open_ok true C E f o ho
+  obtain ⟨hd', root', n', _, _, hz', hu', _⟩ := xar_open_ok true C E f' o' ho'
   rw [hreg, hz'] at hz
   simp only [Option.some.injEq, Prod.mk.injEq] at hz
   obtain ⟨rfl, rfl⟩ := hz
